@@ -259,7 +259,8 @@ func (p *Perturber) badValue(m mapRef, key string) *Node {
 		case "interval", "query_offset":
 			return styled(p.pick(badDurations, "gdur"))
 		case "limit":
-			return Raw(p.pick([]string{"-1", "abc", "1.5", "\"5\"", "99999999999999999999"}, "glimit"))
+			return Raw(p.pick([]string{"-1", "abc", "1.5", "\"5\"", "'10'", "!!str 3", "99999999999999999999", "9223372036854775808", "18446744073709551615",
+				"0x10", "0o17", "1_000", "1e3", "+5", "0b11", "~", "[1]", "{a: 1}", "9223372036854775807"}, "glimit"))
 		case "rules":
 			return Raw(p.pick([]string{"{}", "x", "[x]", "[[]]", "[{}]", "[null]", "- {}"}, "grules"))
 		case "labels":
